@@ -528,3 +528,175 @@ func ruleC17KEKLookedUpForTheAskingClient(c *Ctx) {
 		c.note("C17.kek-looked-up-for-the-asking-client: %d regional decrypt call(s) resolved", n)
 	}
 }
+
+// ---------------------------------------------------------------------------------------------
+// Round 15 ("a call replaced by its near-synonym")
+
+// ruleC18CreatedIsEpochSeconds: every Created stamp the SDK produces is in seconds since the epoch, as the documented
+// formats say: the creation time handed to internal.GenerateKey comes from (time.Time).Unix() — directly or through
+// newKeyTimestamp, whose own result is a Unix() — never from UnixMilli / UnixMicro / UnixNano. Nothing in the Go SDK reads
+// a data row key's Created, so a record stamped in milliseconds round-trips here and breaks only the other readers.
+func ruleC18CreatedIsEpochSeconds(c *Ctx) {
+	u := c.U1
+	c.rule("C18.created-is-epoch-seconds", "in package appencryption every creation time handed to internal.GenerateKey is the result of (time.Time).Unix() or of newKeyTimestamp, and newKeyTimestamp returns a (time.Time).Unix()", 3)
+	var unixSeconds func(v ssa.Value, depth int) (bool, string)
+	unixSeconds = func(v ssa.Value, depth int) (bool, string) {
+		cv, ok := resolve(v).(*ssa.Call)
+		if !ok || staticCallee(cv) == nil {
+			return false, describeOperand(resolve(v))
+		}
+		g := staticCallee(cv)
+		fn := funcFullName(g)
+		if fn == "(time.Time).Unix" {
+			return true, fn
+		}
+		// a helper of the SDK that returns such a value on every path (nowUnix(), newKeyTimestamp(…))
+		if g.Blocks != nil && g.Pkg != nil && strings.HasPrefix(g.Pkg.Pkg.Path(), modApp) && depth < 2 {
+			rets := returnsOf(g)
+			for _, r := range rets {
+				if len(r.Results) != 1 {
+					return false, fn
+				}
+				if ok2, got := unixSeconds(returnedValue(r, 0), depth+1); !ok2 {
+					return false, got
+				}
+			}
+			return len(rets) > 0, fn
+		}
+		return false, fn
+	}
+	isUnixSeconds := func(v ssa.Value) (bool, string) { return unixSeconds(v, 0) }
+	nkt := u.Func(pkgApp, "newKeyTimestamp")
+	if nkt == nil || nkt.Blocks == nil {
+		c.unresolved("newKeyTimestamp", "appencryption.newKeyTimestamp")
+	} else {
+		c.FuncsAnalysed[shortName(nkt)] = true
+		for _, r := range returnsOf(nkt) {
+			c.CallSites++
+			ok, got := isUnixSeconds(returnedValue(r, 0))
+			c.check(ok, "appencryption.newKeyTimestamp/unit", u.ipos(r), "seconds since the epoch", "newKeyTimestamp returns "+got+" — not seconds since the epoch: every system and intermediate key is stamped in another unit than the documented one (and than the expiry arithmetic, which reads Created as seconds)")
+		}
+	}
+	n := 0
+	for _, f := range u.RepoFuncs {
+		root := rootFunc(f)
+		if root.Pkg == nil || root.Pkg.Pkg.Path() != pkgApp || f.Blocks == nil {
+			continue
+		}
+		allInstrs(f, func(i ssa.Instruction) {
+			if !staticIs(i, pkgInt+".GenerateKey") {
+				return
+			}
+			n++
+			c.CallSites++
+			c.FuncsAnalysed[shortName(f)] = true
+			arg := callOf(i).Args[1]
+			ok, got := isUnixSeconds(arg)
+			if cv, isCall := resolve(arg).(*ssa.Call); isCall && staticCallee(cv) == nkt && nkt != nil {
+				ok = true
+			}
+			c.check(ok, trimPkgDirs(shortName(f))+"/GenerateKey(created)", u.ipos(i), "seconds since the epoch", "the new key's Created is "+got+", not seconds since the epoch: the record written carries a timestamp in another unit than the documented format — the other SDKs reject it or read a date tens of thousands of years away")
+		})
+	}
+	if n == 0 {
+		c.unresolved("GenerateKey calls", "no internal.GenerateKey call in package appencryption")
+	}
+}
+
+// ruleC19ShutdownIsGraceful: on SIGINT / SIGTERM the sidecar stops accepting new streams but lets the open ones finish:
+// the only way it stops its gRPC server is GracefulStop. Stop() closes every open stream at once: requests already sent on
+// a session stream are never answered.
+func ruleC19ShutdownIsGraceful(c *Ctx) {
+	u := c.U2
+	c.rule("C19.shutdown-is-graceful", "the sidecar calls (*grpc.Server).GracefulStop and never (*grpc.Server).Stop", 1)
+	graceful := 0
+	for _, f := range u.RepoFuncs {
+		root := rootFunc(f)
+		if f.Blocks == nil || root.Pkg == nil || !strings.Contains(root.Pkg.Pkg.Path(), "/asherah/server/go") {
+			continue
+		}
+		allInstrs(f, func(i ssa.Instruction) {
+			g := staticCallee(i)
+			if g == nil {
+				return
+			}
+			switch funcFullName(g) {
+			case "(*google.golang.org/grpc.Server).GracefulStop":
+				graceful++
+				c.CallSites++
+				c.FuncsAnalysed[shortName(f)] = true
+				c.ok(trimPkgDirs(shortName(f))+"/GracefulStop", u.ipos(i), "open streams are served to their end")
+			case "(*google.golang.org/grpc.Server).Stop":
+				c.CallSites++
+				c.bad(trimPkgDirs(shortName(f))+"/Stop", u.ipos(i), "the server is stopped with Stop(): every open session stream is closed at once — a request the client has already sent is never answered (and its session is torn down mid-operation); GracefulStop lets open streams finish")
+			}
+		})
+	}
+	if graceful == 0 {
+		c.bad("server/shutdown", "", "no GracefulStop call found: the sidecar has no orderly shutdown (a terminated process drops the requests in flight)")
+	}
+}
+
+// ruleC04CallersContextReachesTheStore: a function of the SDK that was given a context hands that context (or one derived
+// from it) to whatever it calls with a context — never a fresh context.Background() / TODO(). The fall-back read after a
+// refused Store is the case in point: Store fails because the caller's context has ended, the SDK takes that for "another
+// process was first" and reads the latest key back; under the caller's context that read fails too and the operation
+// returns the error; under a fresh context it succeeds and hands back the very key — expired or revoked — that the
+// operation was replacing, unvalidated.
+func ruleC04CallersContextReachesTheStore(c *Ctx) {
+	u := c.U1
+	c.rule("C04.callers-context-reaches-the-store", "in package appencryption and pkg/persistence every function that has a context.Context parameter (or captures one) passes no context.Background() / context.TODO() to a callee, and calls no context-less variant (Query / QueryRow / Exec) of a database/sql method", 8)
+	isCtx := func(t types.Type) bool { return typeIsNamed(t, "context", "Context") }
+	n := 0
+	for _, f := range u.RepoFuncs {
+		root := rootFunc(f)
+		if root.Pkg == nil || f.Blocks == nil {
+			continue
+		}
+		if p := root.Pkg.Pkg.Path(); p != pkgApp && p != pkgPersist {
+			continue
+		}
+		has := false
+		for _, p := range root.Params {
+			if isCtx(p.Type()) {
+				has = true
+			}
+		}
+		if !has {
+			continue
+		}
+		allInstrs(f, func(i ssa.Instruction) {
+			cc := callOf(i)
+			if cc == nil {
+				return
+			}
+			if g := cc.StaticCallee(); g != nil && g.Pkg != nil && g.Pkg.Pkg.Path() == "database/sql" {
+				switch g.Name() {
+				case "Query", "QueryRow", "Exec", "Prepare", "Begin":
+					n++
+					c.CallSites++
+					c.bad(trimPkgDirs(shortName(f))+"/sql."+g.Name(), u.ipos(i), "the statement is run without the caller's context ("+g.Name()+" instead of "+g.Name()+"Context): it no longer ends when the caller's context does — after a Store refused by an ended context the fall-back read succeeds and returns the key that was being replaced")
+					return
+				}
+			}
+			for _, a := range cc.Args {
+				if !isCtx(a.Type()) {
+					continue
+				}
+				n++
+				c.CallSites++
+				c.FuncsAnalysed[shortName(f)] = true
+				fresh := ""
+				if cv, ok := resolve(a).(*ssa.Call); ok {
+					if g := staticCallee(cv); g != nil && g.Pkg != nil && g.Pkg.Pkg.Path() == "context" && (g.Name() == "Background" || g.Name() == "TODO") {
+						fresh = "context." + g.Name() + "()"
+					}
+				}
+				c.check(fresh == "", trimPkgDirs(shortName(f))+"/ctx→"+calleeLabel(i), u.ipos(i), "the caller's context", "a function that was given a context calls "+calleeLabel(i)+" under "+fresh+": the call no longer ends when the caller's context does — after a Store refused by an ended context the fall-back read succeeds and returns the (expired or revoked) key that was being replaced, which is then used for the write")
+			}
+		})
+	}
+	if n == 0 {
+		c.unresolved("context flow", "no call with a context argument found")
+	}
+}
